@@ -133,7 +133,11 @@ def _call_reproduces(path, call):
             'sp = importlib.util.spec_from_file_location("lem", %r)\n'
             'L = importlib.util.module_from_spec(sp); sp.loader.exec_module(L)\n'
             'try:\n'
-            '    ok = eval(%r, vars(L))\n'
+            '    code = compile(%r, "<call>", "eval")\n'
+            'except SyntaxError as e:\n'
+            '    print("cannot parse the counterexample", e); sys.exit(3)\n'
+            'try:\n'
+            '    ok = eval(code, vars(L))\n'
             'except Exception as e:\n'
             '    print("raised", type(e).__name__, e); sys.exit(1)\n'
             'sys.exit(0 if ok else 1)\n') % (path, call)
@@ -180,7 +184,8 @@ def run(pid, timeout_s=25):
                     verdict, detail = 'confirmed', msg
                 elif kind == 'error':
                     mc = re.search(r'when calling (lemma_\w+\(.*\))', msg)
-                    verdict, detail, call = 'counterexample', msg, mc.group(1) if mc else None
+                    verdict, detail = 'counterexample', msg
+                    call = re.sub(r'\s*\(which .*$', '', mc.group(1)) if mc else None
                     break
                 elif verdict != 'confirmed':
                     verdict, detail = 'inconclusive', msg
